@@ -67,7 +67,7 @@ def bounds(tier):
 
 def shards(tier):
     maxb = 3 if tier == "quick" else 4
-    out = [("short", 0), ("leak", 0), ("special", 0)] + [("mid", a) for a in MID]
+    out = [("short", 0), ("construction", 0), ("leak", 0), ("special", 0)] + [("mid", a) for a in MID]
     for a in NAMES:
         for b in NAMES:
             out.append(("pre", a, b))
@@ -315,8 +315,34 @@ def run_libs(libs, acc):
                     lib = build(names)
 
 
+ORDER_CONFIGS = [(o, t) for o in ((0, 1, 2, 3, 4), (2, 0), (), (4, 3, 2, 1, 0), (2, 7, 6), (7,)) for t in (True, False)]
+ORDER_PROBE_LIBS = [("IC", "Eb", "Ea", "Sa", "P"), ("EC", "IC", "Eb", "Sa", "Ea", "Ea2"), ("Ea", "IC"), ("P", "IC", "Sa", "EC", "Ea2", "Eb")]
+
+
+def order_behaviour(cfg):
+    o, t = cfg
+    m = SortBlocksByTypeAndKeyMiddleware(block_type_order=tuple(TYPES_ALL[i] for i in o), preserve_comments_on_top=t)
+    out = []
+    for names in ORDER_PROBE_LIBS:
+        try:
+            out.append([tag(b) for b in m.transform(build(names)).blocks])
+        except Exception as ex:
+            out.append(["raised", type(ex).__name__])
+    return out
+
+def check_construction_order(acc):
+    """mc/order.py: every ordered pair of configurations, against each configuration first in a fresh interpreter."""
+    import sys
+
+    from .. import order
+
+    order.run(sys.modules[__name__], acc, group=lambda cfg: 0)
+
+
 def run_shard(shard, tier, acc):
     maxb = 3 if tier == "quick" else 4
+    if shard[0] == "construction":
+        return check_construction_order(acc)
     if shard[0] == "short":
         run_libs([()] + [(a,) for a in NAMES], acc)
         return
@@ -352,6 +378,8 @@ def run_shard(shard, tier, acc):
 
 
 def replay(case, acc):
+    if "construction_order" in case:
+        return check_construction_order(acc)
     if "flag_reading" in case:
         return check_flag_readings(acc)
     if "special_library" in case:
